@@ -795,6 +795,12 @@ class Emit:
                 X = s.val(x)
                 return setd(t2, s.vlanes(t2, [s.cast(op, V('raw', "%s.a[%d]" % (X, i), x.ty.el), t2.el) for i in range(t2.n)]))
             if op == 'bitcast' and any(isinstance(t, VecT) and isinstance(t.el, IntT) and t.el.w == 1 for t in (x.ty, t2)):
+                # <n x i1> <-> i<n>: lane k is bit k (little endian); lanes are stored one per byte here
+                X = s.val(x)
+                if isinstance(x.ty, VecT) and isinstance(t2, IntT) and t2.w == x.ty.n and t2.w <= 64:
+                    return setd(t2, mask(t2.w, " | ".join("((%s)(%s.a[%d] & 1) << %d)" % (ctype(ctx, t2), X, i, i) for i in range(x.ty.n))))
+                if isinstance(t2, VecT) and isinstance(x.ty, IntT) and x.ty.w == t2.n and x.ty.w <= 64:
+                    return setd(t2, s.vlanes(t2, ["(uint8_t)((%s >> %d) & 1)" % (X, i) for i in range(t2.n)]))
                 raise NotImplementedError("bitcast of <n x i1> (packed bits): " + ln)
             return setd(t2, s.cast(op, x, t2))
         if op == 'freeze':
@@ -1096,9 +1102,20 @@ LL_UF_DECL1(ceilf, float) LL_UF_DECL1(floorf, float) LL_UF_DECL1(truncf, float) 
 LL_UF_DECL1(ceil, double) LL_UF_DECL1(floor, double) LL_UF_DECL1(trunc, double) LL_UF_DECL1(nearbyint, double) LL_UF_DECL1(rint, double) LL_UF_DECL1(round, double)
 static inline uint32_t ll_bits_f32(float x) { union { float f; uint32_t u; } v; v.f = x; return v.u; }
 static inline uint64_t ll_bits_f64(double x) { union { double f; uint64_t u; } v; v.f = x; return v.u; }
-/* IEEE facts kept under the abstraction: an operation with a NaN operand returns a NaN (payloads are not modelled anywhere) */
-#define LL_UF_BIN(name, T, B, comm) static inline T ll_##name##_##B(T a, T b) { if (a != a || b != b) return (T)NAN; \
-  int c_ = !(comm) || ll_bits_##B(a) <= ll_bits_##B(b); return __CPROVER_uninterpreted_##name##_##B(c_ ? a : b, c_ ? b : a); }
+/* IEEE facts kept under the abstraction: an operation with a NaN operand returns a NaN (payloads are not modelled anywhere);
+   multiplication / division by exactly 1 returns the other operand (compilers rewrite c ? x : s*x into x * (c ? 1 : s)) */
+#ifdef LL_UF_NOSORT   /* cheaper variant for computations whose two evaluations are known to use the same operand order */
+#define LL_UF_SORT 0
+#else
+#define LL_UF_SORT 1
+#endif
+#define LL_UF_ONE_fadd(T, a, b)
+#define LL_UF_ONE_fsub(T, a, b)
+#define LL_UF_ONE_fmul(T, a, b) if ((a) == (T)1) return (b); if ((b) == (T)1) return (a);   /* x * 1 == x, bit for bit, for every x */ \
+  if ((a) == (T)-1) return -(b); if ((b) == (T)-1) return -(a);                               /* x * -1 == -x */
+#define LL_UF_ONE_fdiv(T, a, b) if ((b) == (T)1) return (a);                                /* x / 1 == x */
+#define LL_UF_BIN(name, T, B, comm) static inline T ll_##name##_##B(T a, T b) { if (a != a || b != b) return (T)NAN; LL_UF_ONE_##name(T, a, b) \
+  int c_ = !((comm) && LL_UF_SORT) || ll_bits_##B(a) <= ll_bits_##B(b); return __CPROVER_uninterpreted_##name##_##B(c_ ? a : b, c_ ? b : a); }
 LL_UF_BIN(fadd, float, f32, 1) LL_UF_BIN(fmul, float, f32, 1) LL_UF_BIN(fsub, float, f32, 0) LL_UF_BIN(fdiv, float, f32, 0)
 LL_UF_BIN(fadd, double, f64, 1) LL_UF_BIN(fmul, double, f64, 1) LL_UF_BIN(fsub, double, f64, 0) LL_UF_BIN(fdiv, double, f64, 0)
 #define LL_UF_UN(name, T) static inline T ll_##name(T a) { if (a != a) return (T)NAN; return __CPROVER_uninterpreted_##name(a); }
